@@ -31,8 +31,13 @@ def shards(tier, seed):
     Ls = list(range(16, 129)) + [1000, 4096, 70001] if tier == "quick" else list(range(16, 513)) + [1024, 4096, 70001]
     out = []
     step = 4 if tier == "quick" else 8
-    for i in range(0, len(Ls), step):
-        out.append({"part": "sin", "Ls": Ls[i:i + step]})
+    small = [L for L in Ls if L < 1000]
+    for i in range(0, len(small), step):
+        out.append({"part": "sin", "Ls": small[i:i + step]})
+    for L in Ls:
+        if L >= 1000:   # long segments: one shard per psll
+            for psll in PSLL:
+                out.append({"part": "sin", "Ls": [L], "psll": [psll]})
     for N in (24, 64):
         for sch in ("ltf", "vectorized_ltf"):
             for win in ("kaiser200", "hann", "custom"):
@@ -57,7 +62,7 @@ def replay(case):
 def _sin(shard):
     cases = []
     for L in shard["Ls"]:
-        for psll in PSLL:
+        for psll in shard.get("psll", PSLL):
             alpha = refwin.kaiser_alpha_ref(psll)
             m = np.sqrt(1 + alpha * alpha)
             pos = [m + 1.0, m + 1.37, L / 4 + 0.5, L / 2 - m - 1.2]
